@@ -32,6 +32,15 @@ def run(ctx: core.Ctx) -> None:
                         tag='C02-live')
     core.require_ok(live, 'Termination under weak fairness')
     ctx.add_tlc(live, 'Solver core FairSpec => <>Done', constants=f'MaxI={1 if quick else 2}')
+    # unbounded min_iter / max_iter: the loop skeleton's inductive invariant (SolverInd.tla, Apalache)
+    for what, args in (('Init => IndInv', ['--cinit=ConstInit', '--init=Init', '--inv=IndInv', '--length=0']),
+                       ('IndInv /\\ Next => IndInv\'', ['--cinit=ConstInit', '--init=IndInv', '--inv=IndInv', '--length=1']),
+                       ('IndInv => C02 claims', ['--cinit=ConstInit', '--init=IndInv', '--inv=Claims', '--length=0'])):
+        r = core.run_apalache('SolverInd', args, tag='C02')
+        if r['outcome'] != 'NoError':
+            raise core.MachineryError(f'SolverInd.tla: {what} not established by Apalache: {r["outcome"]}\n{r["tail"]}')
+        ctx.tlc_runs.append({'what': f'Apalache SolverInd.tla: {what} (every min_iter, max_iter >= 0)', 'mode': 'apalache inductive', 'wall_s': r['wall'],
+                             'constants': 'MinIter, MaxIter unconstrained naturals'})
     # code -> spec
     suite = sc.record_suite(ctx, ['tests/test_core.py', '-k', 'Solve or solve or Convergence'] if quick
                             else ['tests/test_core.py', 'tests/test_extensions.py'], 'suite')
